@@ -46,6 +46,7 @@ LEVEL["decided"] += ' (R04.9) handles as operation histories on the object model
 LEVEL["decided"] += ' R04.1: a generator expression / comprehension over the source handed to another aggregation is not a handover (closing the wrapper leaves the source open); a `break` in a closing loop before the element was closed leaves the loop incomplete.'
 LEVEL["technique"] += '; release histories with failing sources / callables over the object model'
 LEVEL["technique"] += '; evaluated tee construction over an object model'
+LEVEL["decided"] += " R04.2's 'removed only when exhausted' is a path condition (StopAsyncIteration handler, identity with the default handed to anext, the false branch of a flag that a private fetch helper returns as False exactly in its handler); R04.5 also: the tee source is closed nowhere but in the clean-up that tests whether a buffer remains, and the own buffer may be found by an identity-index helper."
 
 # handles that deliberately do not close what they wrap (K0)
 NON_OWNING_HANDLES = {
